@@ -3,7 +3,7 @@ C20 T-tie: side conditions of the C20 models, re-checked by `decide` against the
 `tools/extract/c20` regenerates from the CURRENT retriever/*.go on every run (`Generated/C20_order.lean`).
 A source change that moves the verification after a write, verifies lazily, drops `O_EXCL`, widens the typeflag
 allow-list, weakens a count / size / digest comparison of the verification, removes a field from the frame AAD, or extracts into the destination instead of the staging
-directory changes the table and one of these theorems stops checking.
+directory (plain or encrypted path) changes the table and one of these theorems stops checking.
 (Kept outside Props/ so that `./setup.sh` does not depend on generated files.)
 -/
 import Dawgs.Generated.C20_order
@@ -66,7 +66,11 @@ theorem extract_guards :
     idxOf "seen-add" loopKinds < idxOf "extract" loopKinds ∧
     idxOf "type-check" loopKinds < idxOf "extract" loopKinds ∧
     idxOf "sanitize" loopKinds < idxOf "dup-check" loopKinds ∧
-    allowedTypeflags.all (fun t => t == "TypeReg" || t == "TypeRegA") = true ∧ allowedTypeflags ≠ [] := by decide
+    allowedTypeflags.all (fun t => t == "TypeReg" || t == "TypeRegA") = true ∧ allowedTypeflags ≠ [] ∧
+    -- who runs the loop, and where: the plain entry point hands it its STAGING directory (F11 repair); the only
+    -- caller that hands it a caller-chosen directory is the collection unpacker behind the direct
+    -- `UnpackEncryptedCollectionArchive` (known finding; `Unpack` and `Load` give that one a staging / temp directory)
+    extractLoopCallers = ["UnpackTarWithOptions:stagingDir", "unpackCollectionTarWithOptions:outputDir"] := by decide
 
 /-- Model `Aad`: the additional data is header hash ‖ frame index ‖ frame type (after the magic), writer
 and reader pass their own header hash and running index and the frame's type, the reader advances the
@@ -77,13 +81,22 @@ theorem frame_aad_binds :
     readerAadArgs = ["s.headerHash", "s.frameIndex", "frameType"] ∧
     readerIncrementsIndex = true ∧ readerChecksEofAfterFinal = true ∧ readerRequiresEmptyFinal = true := by decide
 
-/-- Model `unpackStaged`: staging directory created first, removed by a deferred call, extraction goes
-into the staging directory, promotion comes after extraction. -/
+/-- Model `unpackStaged` (encrypted `Unpack`) and model `unpackPlain` (plain `UnpackTarWithOptions`, live since
+the F11 repair): in BOTH functions the staging directory is created first, removed by a deferred call,
+the extraction goes into the staging directory and nowhere else, and the promotion comes after the extraction,
+each behind an error-return guard. The pre-repair shape of `UnpackTarWithOptions`
+(`_, err := unpackTarWithOptions(reader, outputDir, …)`) yields `["extract-elsewhere", "other"]` and is rejected. -/
 theorem unpack_stages :
-    count "extract-elsewhere" unpackKinds = 0 ∧ count "extract-into-staging" unpackKinds = 1 ∧
-    idxOf "create-staging" unpackKinds < idxOf "defer-remove-staging" unpackKinds ∧
-    idxOf "defer-remove-staging" unpackKinds < idxOf "extract-into-staging" unpackKinds ∧
-    idxOf "extract-into-staging" unpackKinds < idxOf "promote" unpackKinds ∧
-    count "promote" unpackKinds = 1 := by decide
+    (count "extract-elsewhere" unpackKinds = 0 ∧ count "extract-into-staging" unpackKinds = 1 ∧
+     idxOf "create-staging" unpackKinds < idxOf "defer-remove-staging" unpackKinds ∧
+     idxOf "defer-remove-staging" unpackKinds < idxOf "extract-into-staging" unpackKinds ∧
+     idxOf "extract-into-staging" unpackKinds < idxOf "promote" unpackKinds ∧
+     count "promote" unpackKinds = 1) ∧
+    (count "extract-elsewhere" plainUnpackKinds = 0 ∧ count "extract-into-staging" plainUnpackKinds = 1 ∧
+     count "create-staging" plainUnpackKinds = 1 ∧
+     idxOf "create-staging" plainUnpackKinds < idxOf "defer-remove-staging" plainUnpackKinds ∧
+     idxOf "defer-remove-staging" plainUnpackKinds < idxOf "extract-into-staging" plainUnpackKinds ∧
+     idxOf "extract-into-staging" plainUnpackKinds < idxOf "promote" plainUnpackKinds ∧
+     count "promote" plainUnpackKinds = 1) := by decide
 
 end Dawgs.C20.Tie
